@@ -548,5 +548,13 @@ def r09_8(ctx):
     from .common import delegate
     delegate(ctx, c05.r05_3, lambda c: "_finalize_choice" in c)
 
+def r09_9(ctx):
+    """R09.9 the loop check sees every member of a choice: members are registered (sym.choice / choice.syms) only after nested `if`
+    blocks inside the choice were flattened (C05 R05.6) - an unregistered member has no membership edge and a loop through it is accepted."""
+    from . import c05
+    from .common import delegate
+    delegate(ctx, c05.r05_6, lambda c: "registered after nested ifs" in c)
+
+
 def rules():
-    return [("R09.8", r09_8, 1), ("R09.7", r09_7, 2), ("R09.6", r09_6, 6), ("R09.1", r09_1, 14), ("R09.1b", r09_1b, 3), ("R09.2", r09_2, 6), ("R09.3", r09_3, 8), ("R09.4", r09_4, 5), ("R09.5", r09_5, 10)]
+    return [("R09.9", r09_9, 1), ("R09.8", r09_8, 1), ("R09.7", r09_7, 2), ("R09.6", r09_6, 6), ("R09.1", r09_1, 14), ("R09.1b", r09_1b, 3), ("R09.2", r09_2, 6), ("R09.3", r09_3, 8), ("R09.4", r09_4, 5), ("R09.5", r09_5, 10)]
